@@ -357,47 +357,36 @@ example :
 
 /-! ## VariableDensityPoisson with `crop_corner=True` (`Model/C06Crop.lean`)
 
-`acs_subset_mask` above is about `assemble`, which has no crop: it covers VariableDensityPoisson with the default
-`crop_corner=False`.  With `crop_corner=True` the code crops *after* OR-ing the disc:
-
-full statement (does NOT hold on the current tree): for every rows, cols, radius, raster — the disc is a subset of
-`poissonFrame true rows cols radius raster`. -/
+`acs_subset_mask` above is about `assemble`, which has no crop.  With `crop_corner=True` the code now crops the
+rasterised pattern and THEN ORs the disc (repaired order); the pinned tree cropped after OR-ing the disc. -/
 
 open DirectVerif.C06Crop in
-/-- what holds (partial): a disc cell is in the mask iff no crop is requested or the cell lies inside the inscribed
-ellipse — so the ACS is a subset of the mask exactly when the disc does not reach beyond the ellipse -/
-theorem poisson_crop_acs_cell_partial (crop : Bool) (rows cols : Nat) (radius : Int) (raster : List Bool)
+/-- **ACS ⊆ mask with and without `crop_corner`**, every shape, radius, raster: each cell of the disc returned by
+`return_acs=True` is sampled in the frame the mask request builds -/
+theorem poisson_crop_acs_subset (crop : Bool) (rows cols : Nat) (radius : Int) (raster : List Bool)
     (hl : raster.length = rows * cols) (k : Nat) (hd : (centeredDisk rows cols radius).getD k false = true) :
-    (poissonFrame crop rows cols radius raster).getD k false = (!crop || (ellipse rows cols).getD k false) :=
+    (poissonFrame crop rows cols radius raster).getD k false = true :=
   poissonFrame_disc_cell crop rows cols radius raster hl k hd
 
 open DirectVerif.C06Crop in
-/-- without the crop (the default) every disc cell is in the mask -/
-theorem poisson_uncropped_acs_subset (rows cols : Nat) (radius : Int) (raster : List Bool)
+/-- the pinned order: a disc cell was in the mask iff no crop was requested or the cell lies inside the ellipse -/
+theorem poisson_crop_pinned_acs_cell (crop : Bool) (rows cols : Nat) (radius : Int) (raster : List Bool)
     (hl : raster.length = rows * cols) (k : Nat) (hd : (centeredDisk rows cols radius).getD k false = true) :
-    (poissonFrame false rows cols radius raster).getD k false = true := by
-  rw [poissonFrame_disc_cell false rows cols radius raster hl k hd]; rfl
+    (poissonFramePinned crop rows cols radius raster).getD k false = (!crop || (ellipse rows cols).getD k false) :=
+  poissonFramePinned_disc_cell crop rows cols radius raster hl k hd
 
 open DirectVerif.C06Crop in
-/-- **finding** (current tree): rows = 24, cols = 8, centre fraction 0.5 (radius 5 > cols / 2): the disc cell
-(12, 0) = flat index 96 is returned by `return_acs=True` but cropped out of the mask, whatever was rasterised -/
-theorem poisson_crop_corner_current_violates :
+/-- **pinned tree**: rows = 24, cols = 8, centre fraction 0.5 (radius 5 > cols / 2): the disc cell (12, 0) = flat
+index 96 is returned by `return_acs=True` but was cropped out of the mask, whatever was rasterised -/
+theorem poisson_crop_corner_pinned_violates :
     (centeredDisk 24 8 5).getD 96 false = true ∧
-    (poissonFrame true 24 8 5 (List.replicate (24 * 8) true)).getD 96 false = false ∧
-    subsetB (centeredDisk 24 8 5) (poissonFrame true 24 8 5 (List.replicate (24 * 8) true)) = false := by decide +kernel
+    (poissonFramePinned true 24 8 5 (List.replicate (24 * 8) true)).getD 96 false = false ∧
+    subsetB (centeredDisk 24 8 5) (poissonFramePinned true 24 8 5 (List.replicate (24 * 8) true)) = false := by decide +kernel
 
 open DirectVerif.C06Crop in
-/-- the minimal repair (crop the rasterised pattern, then OR the disc) restores ACS ⊆ mask for every shape, radius
-and raster -/
-theorem poisson_crop_repaired_acs_subset (crop : Bool) (rows cols : Nat) (radius : Int) (raster : List Bool)
-    (hl : raster.length = rows * cols) (k : Nat) (hd : (centeredDisk rows cols radius).getD k false = true) :
-    (poissonFrameRepaired crop rows cols radius raster).getD k false = true :=
-  poissonFrameRepaired_disc_cell crop rows cols radius raster hl k hd
-
-open DirectVerif.C06Crop in
-/-- hypotheses satisfiable, and a shape where the disc stays inside the ellipse (16 × 16, radius 4): subset holds -/
-example : (centeredDisk 16 16 4).getD (8 * 16 + 8) false = true ∧
-    subsetB (centeredDisk 16 16 4) (poissonFrame true 16 16 4 (List.replicate (16 * 16) false)) = true := by decide +kernel
+/-- hypotheses satisfiable; the same configuration on the current order -/
+example : (centeredDisk 24 8 5).getD 96 false = true ∧
+    subsetB (centeredDisk 24 8 5) (poissonFrame true 24 8 5 (List.replicate (24 * 8) false)) = true := by decide +kernel
 
 /-! ## non-vacuity / regression examples -/
 
